@@ -113,6 +113,7 @@ class Engine:
         self.last_footprint = None
         self.pending_victims: set[str] = set()
         self.parent_removed: set[str] = set()  # flat nodes the library sweeps lazily (or never)
+        self.stale_reuse: set[str] = set()  # identifiers re-used while such a node was still stored (C06 lanes only)
         self.freed = 0
         from geoh5py.workspace import Workspace
 
@@ -264,7 +265,7 @@ class Engine:
         for k, w in self.weights.items():
             if w <= 0:
                 continue
-            if k in ("mk_group", "mk_object", "reopen", "gc", "listing", "open_again"):
+            if k in ("mk_group", "mk_object", "mk_deferred", "reopen", "gc", "listing", "open_again"):
                 avail.append((k, w))
             elif k in ("add_data", "comment", "add_file", "edit_vertices") and objs:
                 avail.append((k, w))
@@ -277,6 +278,8 @@ class Engine:
             elif k in ("metadata",) and (objs or grps):
                 avail.append((k, w))
             elif k == "move" and (objs or grps) and (len(grps) >= 1):
+                avail.append((k, w))
+            elif k == "half_write":
                 avail.append((k, w))
             elif k in ("move_data", "add_data_fail") and objs:
                 avail.append((k, w))
@@ -330,6 +333,30 @@ class Engine:
         n = Node(str(g.uid), "group", type(g).__name__, parent, name)
         self.model.nodes[n.uid] = n
         op["uid"] = n.uid
+
+    def op_mk_deferred(self, op):
+        """Creation through the documented `Workspace.create_entity(..., save_on_creation=False)`: the entity lives in the
+        session at once and is stored by a later save of its parent, of one of its children, or by the close."""
+        from geoh5py.objects import Points
+
+        parent = self.pick_container()
+        as_group = self.rng.random() < 0.6
+        cls = self.rng.choice(self.groups) if as_group else "Points"
+        name = self.new_name("q")
+        op.update(cls=cls, parent=parent, name=name)
+        fp = self.last_footprint
+        fp["create"], fp["any_type"] = True, True
+        fp["links"].add("Groups/" + br(parent))
+        if as_group:
+            e = self.ws.create_entity(gen.group_class(cls), save_on_creation=False, entity={"name": name, "parent": self.ent(parent)})
+        else:
+            xyz = np.array([[float(i), float(self.counter), float(self.rng.randint(0, 5))] for i in range(self.rng.randint(2, 6))])
+            e = self.ws.create_entity(Points, save_on_creation=False, entity={"name": name, "parent": self.ent(parent), "vertices": xyz})
+        self.remember(e)
+        n = Node(str(e.uid), "group" if as_group else "object", type(e).__name__, parent, name)
+        self.model.nodes[n.uid] = n
+        op["uid"] = n.uid
+        self.rec.see("deferred-creations")
 
     def op_mk_object(self, op):
         parent = self.pick_container()
@@ -393,6 +420,8 @@ class Engine:
         obj = self.ent(o.uid)
         how = self.rng.choice(["new-array", "in-place"])
         op.update(cls=o.cls, target=o.uid, how=how)
+        if obj.vertices is None:
+            raise ExpectedRefusal("object without vertices (left behind by a failed creation)")
         self.last_footprint["content"].add(path_of(o))
         if how == "in-place":
             v = obj.vertices
@@ -609,6 +638,64 @@ class Engine:
                 cn.dkind = "auto"
                 self.model.nodes[cn.uid] = cn
 
+    def op_half_write(self, op):
+        """An operation the library accepts, starts to store and then abandons with an exception: metadata that cannot be
+        serialised (a set, a numpy integer) handed to a creation or to the setter.  The exception is the answer to the user;
+        the file written so far -- and at every later close -- must still obey the layout.  The model follows the live view."""
+        bad = self.rng.choice([{"tags": {1, 2}}, {"count": np.int64(3)}, {"when": object()}])
+        route = self.rng.choice(["object", "data", "data", "setter"])
+        objs = self.model.of_kind("object")
+        if route != "object" and not objs:
+            route = "object"
+        op.update(route=route, expect="raises")
+        from geoh5py.objects import Points
+
+        parent_uid = None
+        try:
+            if route == "object":
+                parent_uid = self.pick_container()
+                op.update(cls="Points", target=parent_uid)
+                Points.create(self.ws, parent=self.ent(parent_uid), name=self.new_name("hw"), vertices=np.array([[0.0, 1.0, 2.0], [1.0, 1.0, 2.0]]), metadata=bad)
+            elif route == "data":
+                o = self.rng.choice(objs)
+                parent_uid = o.uid
+                obj = self.ent(o.uid)
+                assoc = self.rng.choice([a for a in gen.associations_for(obj) if a != "OBJECT"] or ["OBJECT"])
+                if assoc == "OBJECT":
+                    raise ExpectedRefusal("no array association")
+                spec, _ = gen.data_spec(obj, "float", assoc, self.rng, tag=self.counter)
+                spec["metadata"] = bad
+                op.update(cls=o.cls, target=o.uid)
+                obj.add_data({self.new_name("hw"): spec})
+            else:
+                o = self.rng.choice(objs)
+                op.update(cls=o.cls, target=o.uid)
+                if any(x in o.cls for x in ("Receivers", "Transmitters", "Electrode", "BaseStations")):
+                    raise ExpectedRefusal("survey metadata is structured")
+                try:
+                    self.ent(o.uid).metadata = bad
+                finally:
+                    # the user's recovery: the rejected value is taken back (it would make every later write of this entity fail)
+                    self.ent(o.uid).metadata = None
+                    o.meta = None
+        except ExpectedRefusal:
+            raise
+        except Exception as exc:  # noqa: BLE001
+            op["raised_expected"] = type(exc).__name__
+            self.rec.see("half-written-operations")
+            self.rec.see("half-write:" + route)
+        else:
+            self.rec.see("half-write-accepted:" + route)
+        if parent_uid is not None:
+            for c in self.ent(parent_uid).children:
+                if not snap._is_pg(c) and str(c.uid) not in self.model.nodes:
+                    cn = Node(str(c.uid), kind_of(c), type(c).__name__, parent_uid, c.name)
+                    cn.dkind = "auto"
+                    self.model.nodes[cn.uid] = cn
+                    op["leftover"] = cn.uid
+                    c.metadata = None  # same recovery on the entity the failed creation left behind
+                    self.rec.see("half-write-leftovers")
+
     def _learn_copy(self, src_uid, new_ent, parent_uid, with_children, model=None):
         """Mirror a copy in the model; children are matched by name and class under the copy."""
         m = self.model
@@ -629,7 +716,7 @@ class Engine:
                     exact = [c for c in match if self._live_sig(c) == want_sig]
                     match = exact or match
                 if not match:
-                    self.rec.fail(f"{self.prop}.copy-child-missing", op="copy", cls=src.cls, attr=cs.cls, detail=f"copy of {src.cls} lacks child named {cs.name!r} ({cs.cls})")
+                    self.rec.fail(f"{self.prop}.copy-child-missing", op="copy", cls=src.cls, attr="stale-node-of-parent-removal" if cu in self.stale_reuse else cs.cls, detail=f"copy of {src.cls} lacks child named {cs.name!r} ({cs.cls})")
                     continue
                 used.add(id(match[0]))
                 mapping.update(self._learn_copy(cu, match[0], n.uid, True))
@@ -1040,6 +1127,8 @@ DEFAULT_WEIGHTS = {
     "edit_vertices": 0.8,
     "remove_many": 0.5,
     "foreign_pg": 0.3,
+    "mk_deferred": 0.0,
+    "half_write": 0.0,
     "copy_out": 0.0,
 }
 
